@@ -2,7 +2,7 @@
 (DESIGN.md 4.2): C08 (ComputeChecksum, FoldChecksum), C09/C10 (Sequence.Difference/Add), C17 (fnvHash)."""
 import os, subprocess, filecmp, shutil, re
 
-def go2v_hook(root, repo, work, hexe):
+def go2v_hook(root, repo, work, hexe, equiv='KernelsEquiv', grid='KernelsGrid'):
     env = dict(os.environ); env['VERIF_REPO'] = repo
     os.makedirs(work, exist_ok=True)
     tmp = os.path.join(work, 'Kernels.v')
@@ -14,20 +14,26 @@ def go2v_hook(root, repo, work, hexe):
     dst = os.path.join(root, 'coq', 'Gen', 'Kernels.v')
     if not os.path.exists(dst) or not filecmp.cmp(tmp, dst, shallow=False):
         shutil.copyfile(tmp, dst + '.new'); os.replace(dst + '.new', dst)
-    m = subprocess.run(['make', '-j4', 'Gen/KernelsEquiv.vo'], cwd=os.path.join(root, 'coq'), stdout=subprocess.PIPE, stderr=subprocess.STDOUT, text=True, timeout=1800)
+    m = subprocess.run(['make', '-j4', 'Gen/%s.vo' % equiv], cwd=os.path.join(root, 'coq'), stdout=subprocess.PIPE, stderr=subprocess.STDOUT, text=True, timeout=1800)
     n = len(re.findall(r'^Definition go_', open(dst).read(), re.M))
-    lem = len(re.findall(r'^(?:Lemma|Theorem) go_', open(os.path.join(root, 'coq', 'Gen', 'KernelsEquiv.v')).read(), re.M))
+    lem = len(re.findall(r'^(?:Lemma|Theorem) go_', open(os.path.join(root, 'coq', 'Gen', equiv + '.v')).read(), re.M))
     extra = {'go2v_kernels_regenerated': n, 'go2v_equivalence_lemmas': lem}
     if m.returncode != 0:
-        err = re.findall(r'File "\./Gen/KernelsEquiv\.v", line (\d+)', m.stdout)
+        err = re.findall(r'File "\./Gen/%s\.v", line (\d+)' % equiv, m.stdout)
         where = (' line ' + err[0]) if err else ''
         # does the regenerated kernel still agree with the model on the boundary grid (vm_compute)?
-        g = subprocess.run(['make', '-j4', 'Gen/KernelsGrid.vo'], cwd=os.path.join(root, 'coq'), stdout=subprocess.PIPE, stderr=subprocess.STDOUT, text=True, timeout=1800)
+        g = subprocess.run(['make', '-j4', 'Gen/%s.vo' % grid], cwd=os.path.join(root, 'coq'), stdout=subprocess.PIPE, stderr=subprocess.STDOUT, text=True, timeout=1800)
         if g.returncode != 0:
-            gerr = re.findall(r'File "\./Gen/KernelsGrid\.v", line (\d+)', g.stdout)
+            gerr = re.findall(r'File "\./Gen/%s\.v", line (\d+)' % grid, g.stdout)
             extra['go2v_tie'] = 'broken: semantic difference on the boundary grid'
-            return False, ('kernel equivalence (coq/Gen/KernelsEquiv.v%s) no longer checks AND the kernel regenerated from the repository differs from the '
-                           'model on the boundary grid (coq/Gen/KernelsGrid.v%s): the arithmetic changed: %s') % (where, (' line ' + gerr[0]) if gerr else '', g.stdout[-400:]), extra
+            return False, ('kernel equivalence (coq/Gen/%s.v%s) no longer checks AND the kernel regenerated from the repository differs from the '
+                           'model on the boundary grid (coq/Gen/%s.v%s): the arithmetic changed: %s') % (equiv, where, grid, (' line ' + gerr[0]) if gerr else '', g.stdout[-400:]), extra
         extra['go2v_tie'] = 'lost (lemma script no longer applies; boundary grid agrees)'
-        return False, 'SOFT: kernel equivalence lemma (coq/Gen/KernelsEquiv.v%s) no longer checks against the regenerated kernels, but they agree with the model on the whole boundary grid' % where, extra
+        return False, 'SOFT: kernel equivalence lemma (coq/Gen/%s.v%s) no longer checks against the regenerated kernels, but they agree with the model on the whole boundary grid' % (equiv, where), extra
     return True, '', extra
+
+
+def go2v_hook2(root, repo, work, hexe):
+    """second kernel group: pcapng padding and timestamp resolution, SCTP chunk padding, RadioTap align, min
+    (coq/Gen/KernelsEquiv2.v, KernelsGrid2.v); pre-hook of C14ng, C15ng, Lsctp"""
+    return go2v_hook(root, repo, work, hexe, equiv='KernelsEquiv2', grid='KernelsGrid2')
